@@ -667,6 +667,172 @@ def _push_down_new_bases(parsed) -> None:
                         have.add(st.target.id)
 
 
+def _drop_overload_stubs(parsed) -> None:
+    """`@typing.overload` stubs are replaced at run time by the definition that follows them in the same body: only that one is the function."""
+    def is_overload(d: ast.AST) -> bool:
+        return (isinstance(d, ast.Name) and d.id == "overload") or (isinstance(d, ast.Attribute) and d.attr == "overload")
+    for _n, _p, _s, tree, _k in parsed:
+        for node in ast.walk(tree):
+            body = getattr(node, "body", None)
+            if not isinstance(node, (ast.Module, ast.ClassDef)) or not isinstance(body, list):
+                continue
+            real = {st.name for st in body if isinstance(st, (ast.FunctionDef, ast.AsyncFunctionDef)) and not any(is_overload(d) for d in st.decorator_list)}
+            keep = [st for st in body if not (isinstance(st, (ast.FunctionDef, ast.AsyncFunctionDef)) and any(is_overload(d) for d in st.decorator_list) and st.name in real)]
+            if len(keep) != len(body):
+                body[:] = keep
+
+
+def _move_back_reference_functions(parsed) -> None:
+    """A module-level function of the reference list that now lives in another (new) module of the package and is imported back under its name
+    (`from ._helpers import _extract_compact`) is put back where the catalogue knows it: the definition replaces the import.  The names the body uses
+    must mean the same thing in both modules (same import origin, or a definition that moves along, or a name the home module can import from the new
+    one); otherwise nothing is moved and the missing anchor fails the run closed."""
+    import copy as _copy
+    from .inline import reference_functions
+    ref = reference_functions()
+    by_name = {n: (t, k) for n, _p, _s, t, k in parsed}
+
+    def sh(full: str) -> str:
+        return full.replace(PKG + ".", "", 1) if full != PKG else ""
+
+    def target_of(mod: str, is_pkg: bool, st: ast.ImportFrom) -> Optional[str]:
+        if st.level == 0:
+            return st.module
+        parts = mod.split(".")
+        if not is_pkg:
+            parts = parts[:-1]
+        if st.level > 1:
+            parts = parts[: len(parts) - (st.level - 1)]
+        return ".".join(parts + ([st.module] if st.module else []))
+
+    def bindings(mod: str, tree: ast.AST, is_pkg: bool) -> Dict[str, Any]:
+        out: Dict[str, Any] = {}
+        for st in tree.body:
+            if isinstance(st, ast.ImportFrom):
+                tg = target_of(mod, is_pkg, st)
+                for a in st.names:
+                    out[a.asname or a.name] = ("from", tg, a.name)
+            elif isinstance(st, ast.Import):
+                for a in st.names:
+                    out[a.asname or a.name.split(".")[0]] = ("import", a.name, a.asname)
+            elif isinstance(st, (ast.FunctionDef, ast.AsyncFunctionDef, ast.ClassDef)):
+                out[st.name] = ("def", mod, st.name)
+            elif isinstance(st, (ast.Assign, ast.AnnAssign)):
+                for t_ in (st.targets if isinstance(st, ast.Assign) else [st.target]):
+                    for x in ast.walk(t_):
+                        if isinstance(x, ast.Name):
+                            out[x.id] = ("def", mod, x.id)
+            elif isinstance(st, ast.If):  # `if TYPE_CHECKING:` imports
+                for s2 in ast.walk(st):
+                    if isinstance(s2, ast.ImportFrom):
+                        tg = target_of(mod, is_pkg, s2)
+                        for a in s2.names:
+                            out.setdefault(a.asname or a.name, ("from", tg, a.name))
+        return out
+
+    _bcache: Dict[str, Dict[str, Any]] = {}
+
+    def origin(b: Any) -> Any:
+        """follow re-exports inside the package to the defining module"""
+        seen = 0
+        while b is not None and b[0] == "from" and b[1] in by_name and seen < 10:
+            seen += 1
+            if b[1] not in _bcache:
+                t_, k_ = by_name[b[1]]
+                _bcache[b[1]] = bindings(b[1], t_, k_)
+            nxt = _bcache[b[1]].get(b[2])
+            if nxt is None:
+                return b
+            if nxt[0] == "def":
+                return ("from", nxt[1], nxt[2])
+            b = nxt
+        return b
+
+    for mod, _p, _s, tree, is_pkg in parsed:
+        here = {st.name for st in tree.body if isinstance(st, (ast.FunctionDef, ast.AsyncFunctionDef))}
+        wanted = [r.split(":", 1)[1] for r in ref if r.split(":", 1)[0] == sh(mod) and "." not in r.split(":", 1)[1]]
+        missing = [f for f in wanted if f not in here]
+        if not missing:
+            continue
+        moves = []  # (import statement, alias, source module, def)
+        for st in tree.body:
+            if not isinstance(st, ast.ImportFrom):
+                continue
+            src = target_of(mod, is_pkg, st)
+            if src not in by_name or src == mod:
+                continue
+            stree, _spk = by_name[src]
+            for a in st.names:
+                if a.name in missing and (a.asname in (None, a.name)) and f"{sh(src)}:{a.name}" not in ref:
+                    d = next((x for x in stree.body if isinstance(x, (ast.FunctionDef, ast.AsyncFunctionDef)) and x.name == a.name), None)
+                    if d is not None:
+                        moves.append((st, a, src, d))
+        if not moves:
+            continue
+        mine = bindings(mod, tree, is_pkg)
+        moving = {(src, d.name) for _st, _a, src, d in moves}
+        extra_imports: List[ast.stmt] = []
+        ok_moves = []
+        for st, a, src, d in moves:
+            stree, spk = by_name[src]
+            theirs = bindings(src, stree, spk)
+            params = {x.arg for x in ast.walk(d.args) if isinstance(x, ast.arg)}
+            stored = {x.id for x in ast.walk(d) if isinstance(x, ast.Name) and isinstance(x.ctx, ast.Store)}
+            free = {x.id for x in ast.walk(d) if isinstance(x, ast.Name)} - params - stored
+            fine = True
+            need: List[ast.stmt] = []
+            for g in sorted(free):
+                b = theirs.get(g)
+                if b is None:
+                    continue  # a builtin
+                if b[0] == "def" and (src, g) in moving:
+                    continue
+                if b[0] == "from" and b[1] == mod and mine.get(g, ("def", mod, g))[0] == "def" and g in mine:
+                    continue  # the new module imports it from the home module
+                m_ = mine.get(g)
+                if m_ is not None:
+                    if m_ == b or (m_[0] == "from" and b[0] == "def" and m_[1] == src and m_[2] == g) or (m_[0] == "from" and b[0] == "from" and origin(m_) == origin(b)):
+                        continue
+                    fine = False
+                    break
+                if b[0] == "from":
+                    need.append(ast.ImportFrom(module=b[1], names=[ast.alias(name=b[2], asname=(g if g != b[2] else None))], level=0))
+                elif b[0] == "import":
+                    need.append(ast.Import(names=[ast.alias(name=b[1], asname=b[2])]))
+                else:
+                    need.append(ast.ImportFrom(module=src, names=[ast.alias(name=g, asname=None)], level=0))
+                mine[g] = b
+            if fine:
+                ok_moves.append((st, a, src, d))
+                extra_imports.extend(need)
+        for st, a, src, d in ok_moves:
+            stree, _spk = by_name[src]
+            idx = tree.body.index(st) if st in tree.body else len(tree.body)
+            st.names = [x for x in st.names if x is not a]
+            nd = _copy.deepcopy(d)
+            # definitions go after the last import of the module
+            last_imp = max([i for i, x in enumerate(tree.body) if isinstance(x, (ast.Import, ast.ImportFrom))] + [idx])
+            tree.body.insert(last_imp + 1, nd)
+            if not st.names and st in tree.body:
+                tree.body.remove(st)
+            used_elsewhere = False
+            for m2, _p2, _s2, t2, k2 in parsed:
+                if m2 in (mod, src):
+                    continue
+                for y in t2.body:
+                    if isinstance(y, ast.ImportFrom) and target_of(m2, k2, y) == src and any(b_.name == d.name for b_ in y.names):
+                        used_elsewhere = True
+            still = any(isinstance(x, ast.Name) and x.id == d.name for o in stree.body if o is not d for x in ast.walk(o))
+            if not used_elsewhere and not still and d in stree.body:
+                stree.body.remove(d)
+        for imp in extra_imports:
+            ast.fix_missing_locations(imp)
+            pos = max([i for i, x in enumerate(tree.body) if isinstance(x, (ast.Import, ast.ImportFrom)) and not (isinstance(x, ast.ImportFrom) and x.module == "__future__")] + [-1])
+            tree.body.insert(pos + 1, imp)
+        for x in tree.body:
+            ast.fix_missing_locations(x)
+
+
 def _unalias_module_imports(parsed) -> None:
     """`from .. import util as _util` + `_util.to_bytes(x)` is `from ..util import to_bytes` + `to_bytes(x)`: a module of the package that is imported
     as an object and only ever used through attribute reads is replaced by direct imports of the names read (the rules and the call graph speak
@@ -885,6 +1051,8 @@ class Program:
             except SyntaxError as e:
                 raise AnalysisError(f"cannot parse {path}: {e}")
             parsed.append((name, path, src, tree, is_pkg))
+        _drop_overload_stubs(parsed)
+        _move_back_reference_functions(parsed)
         _unalias_module_imports(parsed)
         _propagate_function_aliases(parsed)
         _expand_partials(parsed)
